@@ -320,3 +320,110 @@ func TestVerifSQLCap(t *testing.T) {
 		}
 	}
 }
+
+// ---- filters: the statements the real store emits for a family of filter ASTs (generated by pychecks/filters.py)
+
+type capFilterCase struct {
+	ID        string          `json:"id"`
+	Resource  string          `json:"resource"` // accounts | transactions | volumes | aggregated | logs
+	Filter    json.RawMessage `json:"filter"`
+	PIT       bool            `json:"pit"`
+	OOT       bool            `json:"oot"`
+	Insertion bool            `json:"insertionDate"`
+	Features  string          `json:"features"`
+	Alone     bool            `json:"alone"`
+	Op        string          `json:"op"` // paginate | count | getone
+}
+
+func TestVerifSQLCapFilters(t *testing.T) {
+	outPath := os.Getenv("VERIF_SQLCAP_OUT")
+	inPath := os.Getenv("VERIF_SQLCAP_FILTERS")
+	if outPath == "" || inPath == "" {
+		t.Skip("VERIF_SQLCAP_OUT / VERIF_SQLCAP_FILTERS not set")
+	}
+	raw, err := os.ReadFile(inPath)
+	if err != nil {
+		t.Fatal(err)
+	}
+	var cases []capFilterCase
+	if err := json.Unmarshal(raw, &cases); err != nil {
+		t.Fatal(err)
+	}
+	f, err := os.Create(outPath)
+	if err != nil {
+		t.Fatal(err)
+	}
+	defer f.Close()
+	enc := json.NewEncoder(f)
+	ctx := context.Background()
+	fsets := featureSets()
+	for _, c := range cases {
+		feats, ok := fsets[c.Features]
+		if !ok {
+			feats = fsets["default"]
+		}
+		st, rec := capStore(feats, c.Alone)
+		r := capRecord{Name: "Filter." + c.Resource + "." + c.Op, Config: map[string]string{"id": c.ID}}
+		func() {
+			defer func() {
+				if p := recover(); p != nil {
+					r.Error = "panic"
+				}
+			}()
+			var builder query.Builder
+			if len(c.Filter) > 0 && string(c.Filter) != "null" {
+				b, err := query.ParseJSON(string(c.Filter))
+				if err != nil {
+					r.Error = "parse: " + err.Error()
+					return
+				}
+				builder = b
+			}
+			var pit, oot *time.Time
+			if c.PIT {
+				pit = &capPIT
+			}
+			if c.OOT {
+				oot = &capOOT
+			}
+			var err error
+			switch c.Resource {
+			case "accounts":
+				q := common.ResourceQuery[any]{PIT: pit, Builder: builder}
+				if c.Op == "count" {
+					_, err = st.Accounts().Count(ctx, q)
+				} else {
+					_, err = st.Accounts().Paginate(ctx, common.InitialPaginatedQuery[any]{PageSize: 10, Options: q})
+				}
+			case "transactions":
+				q := common.ResourceQuery[any]{PIT: pit, Builder: builder}
+				if c.Op == "count" {
+					_, err = st.Transactions().Count(ctx, q)
+				} else {
+					_, err = st.Transactions().Paginate(ctx, common.InitialPaginatedQuery[any]{PageSize: 10, Options: q})
+				}
+			case "logs":
+				q := common.ResourceQuery[any]{Builder: builder}
+				if c.Op == "count" {
+					_, err = st.Logs().Count(ctx, q)
+				} else {
+					_, err = st.Logs().Paginate(ctx, common.InitialPaginatedQuery[any]{PageSize: 10, Options: q})
+				}
+			case "volumes":
+				q := common.ResourceQuery[ledger.GetVolumesOptions]{PIT: pit, OOT: oot, Builder: builder, Opts: ledger.GetVolumesOptions{UseInsertionDate: c.Insertion}}
+				if c.Op == "count" {
+					_, err = st.Volumes().Count(ctx, q)
+				} else {
+					_, err = st.Volumes().Paginate(ctx, common.InitialPaginatedQuery[ledger.GetVolumesOptions]{PageSize: 10, Options: q})
+				}
+			case "aggregated":
+				_, err = st.AggregatedVolumes().GetOne(ctx, common.ResourceQuery[ledger.GetAggregatedVolumesOptions]{PIT: pit, Builder: builder, Opts: ledger.GetAggregatedVolumesOptions{UseInsertionDate: c.Insertion}})
+			}
+			if err != nil {
+				r.Error = err.Error()
+			}
+		}()
+		r.SQL = append([]string(nil), rec.stmt...)
+		_ = enc.Encode(r)
+	}
+}
